@@ -139,7 +139,9 @@ private:
     {
         static_assert(std::is_same<View, typename gray1_image_t::view_t>::value, "");
 
-        byte_vector_t row( pitch / 8 );
+        // a row of a bitmap occupies whole bytes
+        std::size_t const row_bytes = ( pitch + 7 ) / 8;
+        byte_vector_t row( row_bytes );
 
         using x_it_t = typename View::x_iterator;
         x_it_t row_it = x_it_t( &( *row.begin() ));
@@ -153,7 +155,7 @@ private:
             mirror(row);
             negate(row);
 
-            this->_io_dev.write(&row.front(), pitch / 8);
+            this->_io_dev.write(&row.front(), row_bytes);
         }
     }
 
